@@ -7,6 +7,8 @@ import os
 import random
 from typing import Any, Dict, List
 
+import pyglove as pg
+
 from pgverif import codec, store, tlc
 
 META = {
@@ -124,6 +126,25 @@ def extra_cases(chk) -> None:
                  'eq' if not row['eq'] else 'type' if not row['type'] else 'hash' if not row['hash'] else 'tree')
           chk.violation({'clause': 'rt_' + way, 'cls': 'opaque:' + type(codec.OPAQUE[vi][0]).__name__, 'how': how},
                         {'part': 'codec', 'value': codec.concrete_repr(v, vi, 0), 'err': row['err']})
+  for name, value, eqf in codec.extra_pool():
+    for way, fn in codec.WAYS.items():
+      n += 1
+      try:
+        back = fn(value)
+        how = None
+        if not (type(back) is type(value) and eqf(value, back)):
+          how = 'value'
+        elif not codec.same_behaviour(value, back):
+          how = 'type'
+        elif not codec.tree_ok(back):
+          how = 'tree'
+        elif isinstance(value, pg.List) and value.is_sealed != back.is_sealed:
+          how = 'flags'
+        err = ''
+      except Exception as e:  # pylint: disable=broad-except
+        how, err = 'raises', f'{type(e).__name__}: {str(e)[:120]}'
+      if how:
+        chk.violation({'clause': 'rt_' + way, 'cls': 'extra:' + name, 'how': how}, {'part': 'codec', 'value': repr(value)[:200], 'err': err})
   chk.count('opaque_pool_round_trips', n)
   chk.evaluations += n
 
